@@ -453,6 +453,10 @@ func (r *runner) step(s Step) (ev map[string]interface{}) {
 		setRes(err)
 		ev["dirshape"], _, _ = r.decodeDir(false)
 		ev["residue"] = r.residue()
+	case "clean":
+		setRes(st.Clean())
+		ev["dirshape"], _, _ = r.decodeDir(false)
+		ev["residue"] = r.residue()
 	case "disk":
 		_, tabs, problem := r.decodeDir(true)
 		ev["tables"], ev["after"], ev["problem"] = tabs, s.After, problem
